@@ -834,3 +834,89 @@ def strategy(tier: str) -> Any:
     sieve = st.tuples(_sieve_line(), st.integers(0, 1)).map(
         lambda t: {'kind': 'sieve', 'data': t[0], 'state': t[1]})
     return st.one_of(parse, parse, parse, parse, wire, wire, message, sieve)
+
+
+# -- coverage-guided part (harness/fuzz.py) ----------------------------------------------
+
+FUZZ = {'quick': (1500, 4), 'thorough': (60000, 16)}
+FUZZ_MAX_LEN = 1500
+FUZZ_TIMEOUT = 200
+_SEP = b'\xfe\xfe'
+
+
+def fuzz_decode(data: bytes) -> Any:
+    """byte 0 picks the tier and state, the rest is the payload; wire cases
+    split at 0xfe 0xfe into the first line and follow-up lines"""
+    if len(data) < 2:
+        return None
+    sel, rest = data[0], data[1:]
+    k = sel % 8
+    if k <= 2:
+        return {'kind': 'parse', 'data': rest}
+    if k <= 5:
+        parts = rest.split(_SEP)
+        more = [p if p.endswith(b'\n') else p + b'\r\n' for p in parts[1:4]]
+        return {'kind': 'wire', 'data': parts[0], 'state': (sel >> 3) % 3,
+                'conts': [b'AGFsaWNlAHB3YWxpY2U=', b'*'][:(sel >> 5) % 3],
+                'more': more, 'eof': bool(sel & 0x80)}
+    if k == 6:
+        return {'kind': 'message', 'msg': rest, 'backend': 'dict'}
+    return {'kind': 'sieve', 'data': rest, 'state': (sel >> 3) % 2}
+
+
+def fuzz_seeds() -> list[bytes]:
+    lines = [
+        b'a LOGIN alice pwalice\r\n', b'a LOGIN {5+}\r\nalice "pwalice"\r\n',
+        b'a AUTHENTICATE PLAIN\r\n', b'a AUTHENTICATE PLAIN AGFsaWNlAHB3YWxpY2U=\r\n',
+        b'a CAPABILITY\r\n', b'a ID ("name" "x" "version" NIL)\r\n',
+        b'a STARTTLS\r\n', b'a SELECT INBOX\r\n', b'a EXAMINE "INBOX"\r\n',
+        b'a CREATE a/b/c\r\n', b'a DELETE a\r\n', b'a RENAME a b\r\n',
+        b'a SUBSCRIBE a\r\n', b'a LIST "" *\r\n', b'a LIST "a/" "%/%"\r\n',
+        b'a LSUB "" "*"\r\n',
+        b'a STATUS INBOX (MESSAGES RECENT UIDNEXT UIDVALIDITY UNSEEN)\r\n',
+        b'a APPEND INBOX (\\Seen $x) "01-Jan-2020 00:00:00 +0000" {4+}\r\nA: b\r\n',
+        b'a APPEND INBOX {1+}\r\nx (\\Seen) {1+}\r\ny\r\n',
+        b'a CHECK\r\n', b'a CLOSE\r\n', b'a EXPUNGE\r\n', b'a UID EXPUNGE 1:*\r\n',
+        b'a SEARCH CHARSET UTF-8 OR (NOT SEEN) HEADER Subject {1+}\r\nx BEFORE 1-Jan-2020 UID 1:* LARGER 5\r\n',
+        b'a UID SEARCH RETURN (MIN MAX) ALL\r\n',
+        b'a FETCH 1:* (FLAGS UID ENVELOPE BODYSTRUCTURE BODY.PEEK[1.HEADER.FIELDS (To Cc)]<0.10> BINARY.SIZE[1] RFC822.SIZE INTERNALDATE)\r\n',
+        b'a UID FETCH 1,3:*,2 FULL\r\n', b'a FETCH * BODY[TEXT]\r\n',
+        b'a STORE 1 +FLAGS.SILENT (\\Deleted \\Flagged kw)\r\n',
+        b'a UID STORE 1:* -FLAGS \\Seen\r\n', b'a COPY 1 INBOX\r\n',
+        b'a UID MOVE 1:* Trash\r\n', b'a IDLE\r\n', b'a NOOP\r\n',
+        b'a LOGOUT\r\n', b'a UNSELECT\r\n', b'DONE\r\n',
+    ]
+    seeds = []
+    for i, ln in enumerate(lines):
+        seeds.append(bytes([i % 3]) + ln)                     # parse
+        seeds.append(bytes([3 + i % 3 + 8 * (i % 3)]) + ln)   # wire, state i%3
+        seeds.append(bytes([3 + 16]) + ln + _SEP + b'b NOOP')  # selected + more
+    seeds.append(bytes([3 + 16 + 0x80]) + b'a APPEND INBOX {10+}\r\nabc')
+    for m in (b'Subject: x\r\nFrom: a@b, "c d" <e@f>\r\nDate: Mon, 1 Jan 2001 00:00:00 +0000\r\n\r\nbody\r\n',
+              b'Content-Type: multipart/mixed; boundary=b\r\n\r\n--b\r\nContent-Type: text/plain; charset=utf-8\r\nContent-Transfer-Encoding: base64\r\n\r\naGk=\r\n--b\r\nContent-Type: message/rfc822\r\n\r\nSubject: in\r\n\r\nx\r\n--b--\r\n',
+              b'Content-Type: message/rfc822\r\n\r\nContent-Type: text/html\r\nContent-Disposition: attachment; filename="a"\r\n\r\n<p>\r\n',
+              b'Subject: =?utf-8?b?w6k=?=\r\nReferences: <a@b> <c@d>\r\nIn-Reply-To: <a@b>\r\nMessage-Id: <e@f>\r\nContent-Transfer-Encoding: quoted-printable\r\n\r\n=C3=A9=\r\n'):
+        seeds.append(bytes([6]) + m)
+    for s in (b'CAPABILITY\r\n', b'AUTHENTICATE "PLAIN" "AGFsaWNlAHB3YWxpY2U="\r\n',
+              b'PUTSCRIPT "a" {5+}\r\nkeep;\r\n', b'LISTSCRIPTS\r\n',
+              b'SETACTIVE "a"\r\n', b'GETSCRIPT "a"\r\n',
+              b'RENAMESCRIPT "a" "b"\r\n', b'HAVESPACE "a" 100\r\n',
+              b'CHECKSCRIPT "keep;"\r\n', b'DELETESCRIPT "a"\r\n',
+              b'LOGOUT\r\n', b'UNAUTHENTICATE\r\n'):
+        seeds.append(bytes([7 + 8]) + s)
+        seeds.append(bytes([7]) + s)
+    return seeds
+
+
+FUZZ_DICT = [w + b' ' for w in sorted(_COMMAND_WORDS)] + [
+    b'\r\n', b'{3+}\r\n', b'{0+}\r\n', b'{3}\r\n', b'~{3+}\r\n', b'BODY[',
+    b'BODY.PEEK[', b'BINARY[', b'HEADER.FIELDS (', b'HEADER.FIELDS.NOT (',
+    b'.MIME]', b'.TEXT]', b'<0.1>', b'CHARSET ', b'UTF-8', b'1:*', b'*',
+    b'INBOX', b'\\Seen', b'\\Deleted', b'+FLAGS', b'-FLAGS.SILENT', b'"',
+    b'(', b')', b'NIL', b'OR ', b'NOT ', b'HEADER ', b'BEFORE 1-Jan-2020',
+    b'KEYWORD ', b'UID ', b'RETURN (', _SEP, b'&AOk-', b'&-', b'%',
+    b'Content-Type: ', b'multipart/mixed; boundary=', b'message/rfc822',
+    b'Content-Transfer-Encoding: ', b'base64', b'quoted-printable',
+    b'Content-Disposition: ', b'=?utf-8?q?', b'?=', b'Subject: ', b'From: ',
+    b'Date: ', b'--b\r\n', b'--b--\r\n', b'\r\n\r\n', b'charset=',
+    b'PUTSCRIPT ', b'SETACTIVE ', b'RENAMESCRIPT ', b'"PLAIN" ']
